@@ -495,3 +495,28 @@ Theorem c04_K2_changes_compiled_context :
   /\ users (compile code16 no_texts ck_log 11) = [11].
 Proof. exact K2_changes_compiled_context. Qed.
 Print Assumptions c04_K2_changes_compiled_context.
+
+(* ---------------------------------------------------------------- an ordinal index whose count was rejected (C04-F3, fixed in /repo) *)
+(* message_count_messages_runs_v1 rejects an index whose last record is not the thread's last message and cut points take
+   the count from the replay — but every ordinal was still looked up in that same index first, so an index that had lost a
+   record in the middle AND its newest records resolved an ordinal to a later message (found by the thorough tier, seed 2).
+   Since the fix the message list of the replay, once in hand, answers the look-ups: for ANY content of the ordinal index
+   that fails the count check the cut points are the truth answer (no hypothesis about the index: K3 is left only for an
+   index that passes the check). *)
+Theorem c04_cut_points_rejected_index_not_consulted :
+  forall (me mb : N) (comp full : sfile) (l : log) (ord : ofile) (known : N -> bool) (stride limit : N),
+  valid_log l = true -> log_lens_pos l = true -> FullFaithful l full -> CompFaithful l comp full ->
+  (forall n, ord_count ord (mr_last_of l) <> OSome n) ->
+  cut_points_ord me mb comp full l ord known stride limit = cut_points_truth l stride limit.
+Proof. exact cut_points_rejected_index_eq_truth. Qed.
+Print Assumptions c04_cut_points_rejected_index_not_consulted.
+
+(* the route before the fix: messages 1,3,5,7, index [1;5]: count rejected, ordinal 2 resolved to message 5 *)
+Theorem c04_cut_points_rejected_index_refuted :
+  valid_log wlog7 = true
+  /\ ord_count (OFile [1; 5] 0) (mr_last_of wlog7) = OErr
+  /\ map cp_to_seq (snd (cut_points_ord_unfixed 100 1000 None (Some (project_full wlog7)) wlog7 (OFile [1; 5] 0) (fun _ => true) 2 4)) = [7; 5]
+  /\ map cp_to_seq (snd (cut_points_ord 100 1000 None (Some (project_full wlog7)) wlog7 (OFile [1; 5] 0) (fun _ => true) 2 4)) = [7; 3]
+  /\ map cp_to_seq (snd (cut_points_truth wlog7 2 4)) = [7; 3].
+Proof. exact rejected_index_unfixed. Qed.
+Print Assumptions c04_cut_points_rejected_index_refuted.
